@@ -40,6 +40,23 @@ def expectedFound (rootName : String) (t : Tree) : List Found :=
     | some b =>
       if ds.any (fun a => isRepoDir a && decide (a.1 ≠ d.1) && a.1.isPrefixOf d.1) then none else some (d.1, b)
 
+def kindOfT (name : String) : Tree → Option Bool
+  | .dir es => kindOf name es
+  | _ => none
+
+/-- the directory reached from `t` (an entry called `name`) along `path` is a Git repository (bare iff `b`) and no
+    directory on the way to it is one: "a repository discovered under the root", nested ones excluded -/
+def TopRepo : String → Tree → List String → Bool → Prop
+  | name, t, [], b => kindOfT name t = some b
+  | name, t, n :: rest, b => kindOfT name t = none ∧ ∃ es t', t = .dir es ∧ (n, t') ∈ es ∧ TopRepo n t' rest b
+
+/-- no two names, no two sources -/
+def Distinct (l : List (String × String)) : Prop := (l.map (·.1)).Nodup ∧ (l.map (·.2)).Nodup
+
+/-- everything found under the roots, root by root -/
+def allFound (roots : List (String × Tree)) : List (String × String) :=
+  roots.flatMap fun rt => discoverRoot rt.1 rt.2
+
 /-- named by the path relative to the root (the root itself by its base name; a bare `x.git` as `x`) -/
 def expectedSpecs (roots : List (String × Tree)) : List (String × String) :=
   roots.flatMap fun rt => (expectedFound (baseName rt.1) rt.2).map (specOf rt.1)
